@@ -311,7 +311,7 @@ func (pr *printer) exprLines(e Expr, ind, prefix, site string) {
 			// the canonical layout does so for a third of them (chosen by the condition's text)
 			c := pr.inline(x.Cond, 0)
 			_, canon := pr.lay.(Canonical)
-			if _, isIf := x.Then.Result.(*If); !isIf && ((canon && len(c)%3 == 0) || (!canon && pr.lay.Choice("ifonly-oneline", 2) == 1)) {
+			if _, isIf := x.Then.Result.(*If); !isIf && (x.OneLine || (canon && len(c)%3 == 0) || (!canon && pr.lay.Choice("ifonly-oneline", 2) == 1)) {
 				pr.emit(ind, "if "+c+" then "+pr.inline(x.Then.Result, 0), "if")
 				return
 			}
